@@ -130,7 +130,29 @@ def run(rep, tier, rng):
         cases.append(("a%d" % i, "libs", fields_alone(a[:2])))
         cases.append(("b%d" % i, "libs", fields_alone(b)))
         meta[i] = (a, b, steps, order)
-    long_n = len(FAILING)
+    # an instance that runs PROGRAM FILES (eval_file, as `ruschm FILE` does) next to a library file util.sld, interleaved with an
+    # instance that has no program directory and asks for a library of that name: it must get what it gets alone (not found)
+    base_i = n + len(FAILING)
+    for j in range(4):
+        a = ["(import (scheme base) (util))\n(f)", "(import (scheme base))\n(+ 1 2)"][: 1 + j % 2]
+        b = ["(import (util))", "(import (scheme base))", "(+ 1 2)"]
+        steps, order = [], []
+        if j >= 2:
+            steps.append("1:" + b[0]); order.append((1, 0))
+        for x in a:
+            steps.append("E0:" + x); order.append(("skip", None))
+        for k, x in enumerate(b):
+            if j >= 2 and k == 0:
+                continue
+            steps.append("1:" + x); order.append((1, k))
+        steps.append("new"); order.append(("new", None))
+        steps.append("2:(import (util))"); order.append(("skip", None))
+        i = base_i + j
+        cases.append(("w%d" % i, "world", steps))
+        cases.append(("a%d" % i, "libs", ["std"]))
+        cases.append(("b%d" % i, "prog", ["std"] + b))
+        meta[i] = (a, b, steps, order)
+    long_n = len(FAILING) + 4
     impl = C.run_hx(cases)
     model = C.run_driver([c for c in cases if not (c[0][0] == "w" and int(c[0][1:]) >= n)])
     for i in range(n + long_n):
@@ -182,7 +204,8 @@ def main(tier, seed):
                        "the same name registered with different bodies on each instance, "
                        "failing and unparsable forms) interleaved at random over two instances on one thread, with creation of "
                        "further instances at random points; plus six long histories in which one instance fails 200-1500 times before the "
-                       "other computes; distinct = distinct step sequences")
+                       "other computes, and four in which one instance runs program FILES next to a library file while another asks for a "
+                       "library of that name; distinct = distinct step sequences")
     rep.assumptions = ["that the Rust code has no other channel between instances than the inventoried globals is an inventory (grep "
                        "over non-test source), not a theorem"]
     ok = C.standard_proof_phase(rep, MODULES, directed_search=lambda r: run(r, tier, rng))
